@@ -58,6 +58,7 @@ uint32_t vra_thread(void){ return 0; }
 void vra_na_read(uint32_t o){}
 void vra_na_write(uint32_t o){}
 void vra_forget(void* p, uint64_t len){}
+int vra_loc_overflow_prunes;
 void vra_register(void* p, uint32_t bits){}
 uint32_t vra_stale_reads(void){ return 0; }
 #else
@@ -75,13 +76,21 @@ uint32_t vra_stale_reads(void){ return 0; }
 #define VRA_MAXOBJ 16
 #endif
 typedef uint8_t ts_t;
+#define VRA_NOTHR 0xff
+#define SEL(c, a, b) ((c) ? (a) : (b))          /* branch-free select: multiplexers for SAT, no path fork in --paths mode */
+/* Vector-clock formulation of release/acquire: every store gets an epoch (writer thread, writer clock); a thread
+ * "knows" a message when its vector clock covers that epoch (the store happens-before the thread's current point);
+ * coherence: a load may return any message that is not mo-older than (a) a message the thread knows and (b) a
+ * message the thread has already read or written (t_view).  Release messages carry the writer's vector clock,
+ * acquire loads join it.  All table accesses use CONSTANT indices inside fully unrolled loops. */
 static void* l_addr[VRA_MAXLOC]; static uint8_t l_dead[VRA_MAXLOC]; static uint32_t l_cnt;
 static uint64_t m_val[VRA_MAXLOC][VRA_MAXMSG]; static ts_t m_cnt[VRA_MAXLOC];
-static ts_t m_view[VRA_MAXLOC][VRA_MAXMSG][VRA_MAXLOC];
+static ts_t m_thr[VRA_MAXLOC][VRA_MAXMSG], m_clk[VRA_MAXLOC][VRA_MAXMSG];
 static ts_t m_vc[VRA_MAXLOC][VRA_MAXMSG][VRA_MAXTHR];
 static ts_t t_view[VRA_MAXTHR][VRA_MAXLOC];
 static ts_t t_vc[VRA_MAXTHR][VRA_MAXTHR];
 static uint32_t cur; static int inited; static uint32_t stale;
+int vra_loc_overflow_prunes;   /* harness: more atomic locations than VRA_MAXLOC ends the path (a STATED bound, e.g. number of queue nodes) */
 static ts_t o_wt[VRA_MAXOBJ], o_wc[VRA_MAXOBJ]; static ts_t o_rc[VRA_MAXOBJ][VRA_MAXTHR];
 
 static void vra_init(void){
@@ -96,61 +105,80 @@ static uint32_t vra_loc(void* p, uint32_t bits){
   vra_init();
   for (uint32_t i = 0; i < VRA_MAXLOC; i++)
     if (i < l_cnt && l_addr[i] == p) { if (l_dead[i]) vra_fail(VRA_ERR_DEAD); return i; }
-  if (l_cnt >= VRA_MAXLOC) vra_fail(VRA_ERR_CAP);
+  if (l_cnt >= VRA_MAXLOC) { if (vra_loc_overflow_prunes) vassume(0); vra_fail(VRA_ERR_CAP); }
   uint32_t L = l_cnt++;
-  for (uint32_t i = 0; i < VRA_MAXLOC; i++) if (i == L) { l_addr[i] = p; m_cnt[i] = 1; m_val[i][0] = vmem_read(p, bits); }   /* initial message: non-atomic initialisation, visible to all */
+  /* initial message: non-atomic initialisation, known to every thread */
+  for (uint32_t i = 0; i < VRA_MAXLOC; i++) if (i == L) { l_addr[i] = p; m_cnt[i] = 1; m_val[i][0] = vmem_read(p, bits); m_thr[i][0] = VRA_NOTHR; m_clk[i][0] = 0; }
   return L;
 }
 void vra_register(void* p, uint32_t bits){ (void)vra_loc(p, bits); }
 static int acq(uint32_t o){ return o == 1 || o == 3 || o == 4; }
 static int rel(uint32_t o){ return o == 2 || o == 3 || o == 4; }
-/* All table accesses below use CONSTANT indices inside fully unrolled loops guarded by (index == symbolic):
- * this gives the SAT back end plain multiplexers instead of array-theory constraints (4x fewer variables). */
-struct vmsg { uint64_t val; ts_t view[VRA_MAXLOC]; ts_t vc[VRA_MAXTHR]; };
+
+struct vrow { ts_t cnt; ts_t thr[VRA_MAXMSG], clk[VRA_MAXMSG]; ts_t view; ts_t myvc[VRA_MAXTHR]; };
+struct vmsg { uint64_t val; ts_t vc[VRA_MAXTHR]; };
+/* row L of the small tables + current thread's view/clock (all selected with constant indices) */
+static struct vrow get_row(uint32_t L){
+  struct vrow r; memset(&r, 0, sizeof r);
+  for (uint32_t l = 0; l < VRA_MAXLOC; l++) {
+    int h = (l == L);
+    r.cnt = SEL(h, m_cnt[l], r.cnt);
+    for (uint32_t j = 0; j < VRA_MAXMSG; j++) { r.thr[j] = SEL(h, m_thr[l][j], r.thr[j]); r.clk[j] = SEL(h, m_clk[l][j], r.clk[j]); }
+    for (uint32_t t = 0; t < VRA_MAXTHR; t++) r.view = SEL(h & (t == cur), t_view[t][l], r.view);
+  }
+  for (uint32_t t = 0; t < VRA_MAXTHR; t++) for (uint32_t u = 0; u < VRA_MAXTHR; u++) r.myvc[u] = SEL(t == cur, t_vc[t][u], r.myvc[u]);
+  return r;
+}
+/* oldest message the current thread may still read at this location */
+static uint32_t lower_bound(struct vrow* r){
+  uint32_t lo = r->view;
+  for (uint32_t j = 0; j < VRA_MAXMSG; j++) {
+    int known = 0;
+    for (uint32_t u = 0; u < VRA_MAXTHR; u++) known |= (r->thr[j] == u) & (u != cur) & (r->clk[j] <= r->myvc[u]);
+    lo = SEL((j < r->cnt) & known & (j > lo), j, lo);
+  }
+  return lo;
+}
 static struct vmsg get_msg(uint32_t L, uint32_t k){
   struct vmsg r; memset(&r, 0, sizeof r);
-  for (uint32_t l = 0; l < VRA_MAXLOC; l++) if (l == L)
-    for (uint32_t j = 0; j < VRA_MAXMSG; j++) if (j == k) {
-      r.val = m_val[l][j];
-      for (uint32_t i = 0; i < VRA_MAXLOC; i++) r.view[i] = m_view[l][j][i];
-      for (uint32_t t = 0; t < VRA_MAXTHR; t++) r.vc[t] = m_vc[l][j][t];
+  for (uint32_t l = 0; l < VRA_MAXLOC; l++)
+    for (uint32_t j = 0; j < VRA_MAXMSG; j++) {
+      int hit = (l == L) & (j == k);
+      r.val = SEL(hit, m_val[l][j], r.val);
+      for (uint32_t t = 0; t < VRA_MAXTHR; t++) r.vc[t] = SEL(hit, m_vc[l][j][t], r.vc[t]);
     }
   return r;
 }
-static ts_t get_cnt(uint32_t L){ ts_t r = 0; for (uint32_t l = 0; l < VRA_MAXLOC; l++) if (l == L) r = m_cnt[l]; return r; }
-static ts_t get_tview(uint32_t L){ ts_t r = 0; for (uint32_t t = 0; t < VRA_MAXTHR; t++) if (t == cur) for (uint32_t l = 0; l < VRA_MAXLOC; l++) if (l == L) r = t_view[t][l]; return r; }
-static void set_tview(uint32_t L, ts_t v){ for (uint32_t t = 0; t < VRA_MAXTHR; t++) if (t == cur) for (uint32_t l = 0; l < VRA_MAXLOC; l++) if (l == L) t_view[t][l] = v; }
+static void set_tview(uint32_t L, ts_t v){ for (uint32_t t = 0; t < VRA_MAXTHR; t++) for (uint32_t l = 0; l < VRA_MAXLOC; l++) t_view[t][l] = SEL((t == cur) & (l == L), v, t_view[t][l]); }
 static void join_msg(struct vmsg* m){
-  for (uint32_t t = 0; t < VRA_MAXTHR; t++) if (t == cur) {
-    for (uint32_t i = 0; i < VRA_MAXLOC; i++) if (m->view[i] > t_view[t][i]) t_view[t][i] = m->view[i];
-    for (uint32_t u = 0; u < VRA_MAXTHR; u++) if (m->vc[u] > t_vc[t][u]) t_vc[t][u] = m->vc[u];
-  }
+  for (uint32_t t = 0; t < VRA_MAXTHR; t++)
+    for (uint32_t u = 0; u < VRA_MAXTHR; u++) t_vc[t][u] = SEL((t == cur) & (m->vc[u] > t_vc[t][u]), m->vc[u], t_vc[t][u]);
 }
 /* append a message written by the current thread; `from` = message read by an RMW (release sequence) or 0 */
-static void push_msg(uint32_t L, uint64_t v, uint32_t ord, struct vmsg* from){
-  uint32_t k = get_cnt(L);
+static void push_msg(uint32_t L, struct vrow* row, uint64_t v, uint32_t ord, struct vmsg* from){
+  uint32_t k = row->cnt;
   if (k >= VRA_MAXMSG) vra_fail(VRA_ERR_CAP);
   set_tview(L, (ts_t)k);
-  struct vmsg n; memset(&n, 0, sizeof n); n.val = v;
-  for (uint32_t t = 0; t < VRA_MAXTHR; t++) if (t == cur) {
-    for (uint32_t i = 0; i < VRA_MAXLOC; i++) { ts_t a = rel(ord) ? t_view[t][i] : 0, b = from ? from->view[i] : 0; n.view[i] = a > b ? a : b; }
-    for (uint32_t u = 0; u < VRA_MAXTHR; u++) { ts_t a = rel(ord) ? t_vc[t][u] : 0, b = from ? from->vc[u] : 0; n.vc[u] = a > b ? a : b; }
-    if (rel(ord)) t_vc[t][t]++;
-  }
-  for (uint32_t l = 0; l < VRA_MAXLOC; l++) if (l == L) {
-    m_cnt[l] = (ts_t)(k + 1);
-    for (uint32_t j = 0; j < VRA_MAXMSG; j++) if (j == k) {
-      m_val[l][j] = n.val;
-      for (uint32_t i = 0; i < VRA_MAXLOC; i++) m_view[l][j][i] = (i == l) ? (ts_t)k : n.view[i];
-      for (uint32_t u = 0; u < VRA_MAXTHR; u++) m_vc[l][j][u] = n.vc[u];
+  int r = rel(ord);
+  ts_t nvc[VRA_MAXTHR]; ts_t myclk = 0;
+  for (uint32_t u = 0; u < VRA_MAXTHR; u++) { ts_t a = 0, b = from ? from->vc[u] : 0; for (uint32_t t = 0; t < VRA_MAXTHR; t++) a = SEL((t == cur) & r, t_vc[t][u], a); nvc[u] = SEL(a > b, a, b); }
+  for (uint32_t t = 0; t < VRA_MAXTHR; t++) { myclk = SEL(t == cur, t_vc[t][t], myclk); t_vc[t][t] = SEL(t == cur, (ts_t)(t_vc[t][t] + 1), t_vc[t][t]); }
+  for (uint32_t l = 0; l < VRA_MAXLOC; l++) {
+    m_cnt[l] = SEL(l == L, (ts_t)(k + 1), m_cnt[l]);
+    for (uint32_t j = 0; j < VRA_MAXMSG; j++) {
+      int hit = (l == L) & (j == k);
+      m_val[l][j] = SEL(hit, v, m_val[l][j]);
+      m_thr[l][j] = SEL(hit, (ts_t)cur, m_thr[l][j]); m_clk[l][j] = SEL(hit, myclk, m_clk[l][j]);
+      for (uint32_t u = 0; u < VRA_MAXTHR; u++) m_vc[l][j][u] = SEL(hit, nvc[u], m_vc[l][j][u]);
     }
   }
 }
 uint64_t vra_load(void* p, uint32_t bits, uint32_t ord){
   uint32_t L = vra_loc(p, bits);
-  uint32_t last = (uint32_t)get_cnt(L) - 1;
-  uint32_t k = (ord == 4) ? last : (uint32_t)vnd_range(get_tview(L), last);
-  if (k != last) stale++;
+  struct vrow row = get_row(L);
+  uint32_t last = (uint32_t)row.cnt - 1;
+  uint32_t k = (ord == 4) ? last : (uint32_t)vnd_range(lower_bound(&row), last);
+  stale += (k != last);
   set_tview(L, (ts_t)k);
   struct vmsg m = get_msg(L, k);
   if (acq(ord)) join_msg(&m);
@@ -158,31 +186,33 @@ uint64_t vra_load(void* p, uint32_t bits, uint32_t ord){
 }
 void vra_store(void* p, uint64_t v, uint32_t bits, uint32_t ord){
   uint32_t L = vra_loc(p, bits);
-  push_msg(L, v & vmask(bits), ord, 0);
+  struct vrow row = get_row(L);
+  push_msg(L, &row, v & vmask(bits), ord, 0);
   vmem_write(p, v, bits);
 }
 uint64_t vra_rmw(void* p, uint32_t op, uint64_t v, uint32_t bits, uint32_t ord){
-  uint32_t L = vra_loc(p, bits); uint32_t k = (uint32_t)get_cnt(L) - 1;
+  uint32_t L = vra_loc(p, bits);
+  struct vrow row = get_row(L); uint32_t k = (uint32_t)row.cnt - 1;
   struct vmsg m = get_msg(L, k);
-  set_tview(L, (ts_t)k);
   if (acq(ord)) join_msg(&m);
   uint64_t nv = vrmw_apply(op, m.val, v) & vmask(bits);
-  push_msg(L, nv, ord, &m);
+  push_msg(L, &row, nv, ord, &m);
   vmem_write(p, nv, bits);
   return m.val;
 }
 uint64_t vra_cas(void* p, uint64_t e, uint64_t n, uint32_t bits, uint32_t os, uint32_t of){
-  uint32_t L = vra_loc(p, bits); uint32_t last = (uint32_t)get_cnt(L) - 1;
+  uint32_t L = vra_loc(p, bits);
+  struct vrow row = get_row(L); uint32_t last = (uint32_t)row.cnt - 1;
   e &= vmask(bits);
-  uint32_t k = (uint32_t)vnd_range(get_tview(L), last);
+  uint32_t k = (uint32_t)vnd_range(lower_bound(&row), last);
   struct vmsg m = get_msg(L, k);
   if (k == last && m.val == e) {
-    set_tview(L, (ts_t)k); if (acq(os)) join_msg(&m);
-    push_msg(L, n & vmask(bits), os, &m); vmem_write(p, n, bits);
+    if (acq(os)) join_msg(&m);
+    push_msg(L, &row, n & vmask(bits), os, &m); vmem_write(p, n, bits);
     return m.val;
   }
   vassume(m.val != e);              /* a strong CAS does not fail on the expected value */
-  if (k != last) stale++;
+  stale += (k != last);
   set_tview(L, (ts_t)k); if (acq(of)) join_msg(&m);
   return m.val;
 }
@@ -190,13 +220,16 @@ void vra_fence(uint32_t ord){ vra_fail(VRA_ERR_CAP); /* no fences in quill; reac
 
 static int na_check(uint32_t o, int is_write){
   int race = 0;
-  for (uint32_t t = 0; t < VRA_MAXTHR; t++) if (t == cur)
-    for (uint32_t j = 0; j < VRA_MAXOBJ; j++) if (j == o) {
+  for (uint32_t t = 0; t < VRA_MAXTHR; t++)
+    for (uint32_t j = 0; j < VRA_MAXOBJ; j++) {
+      int hit = (t == cur) & (j == o);
       for (uint32_t u = 0; u < VRA_MAXTHR; u++) {
-        if (u != t && o_wc[j] != 0 && o_wt[j] == u && o_wc[j] > t_vc[t][u]) race = 1;
-        if (is_write && u != t && o_rc[j][u] > t_vc[t][u]) race = 1;
+        race |= hit & (u != t) & (o_wc[j] != 0) & (o_wt[j] == u) & (o_wc[j] > t_vc[t][u]);
+        race |= hit & (is_write != 0) & (u != t) & (o_rc[j][u] > t_vc[t][u]);
       }
-      if (is_write) { o_wt[j] = (ts_t)t; o_wc[j] = t_vc[t][t]; } else o_rc[j][t] = t_vc[t][t];
+      o_wt[j] = SEL(hit & (is_write != 0), (ts_t)t, o_wt[j]);
+      o_wc[j] = SEL(hit & (is_write != 0), t_vc[t][t], o_wc[j]);
+      o_rc[j][t] = SEL(hit & (is_write == 0), t_vc[t][t], o_rc[j][t]);
     }
   return race;
 }
